@@ -775,7 +775,9 @@ func c14CorruptCell(table string, row, col int, cell []byte) []byte {
 		return cell
 	}
 	c := append([]byte{}, cell...)
-	switch (row + col) % 4 {
+	switch (row + col) % 5 {
+	case 4:
+		return c[:min(len(c), 31+(row*3+col)%4)]
 	case 0:
 		return c[:len(c)/2]
 	case 1:
